@@ -186,7 +186,7 @@ def run_seq_correspondence(rp, tabs, rng, n):
         return len(terms)
     bad = common.parse_nlist(out)
     rp.obligation("correspondence: translated Record* programs run sequentially = GetStats/GetMetrics on %d call sequences" % len(terms), not bad)
-    for i in bad[:3]:
+    for i in bad[:1]:
         _, cs, r, pkg = terms[i]
         # sequential totals are defined by the property itself: recompute the true values and see whether the implementation is wrong
         rp.violation({"kind": "correspondence", "package": pkg, "calls": [{"f": HARNESS_FUNCS[k] + p["func"], "args": a} for k, p, a in cs],
@@ -308,6 +308,13 @@ def run(tier):
         return common.stage_fail(rp, e)
     kf = common.known_findings("C10")
     quick = tier == "quick"
+    if not quick and ok_props:
+        # independent re-check of the compiled property file and everything it depends on
+        pc = common.run(["timeout", "1200", "coqchk", "-silent", "-o", "-R", "theories", "GV", "GV.Props.C10"], cwd=common.COQ, timeout=1300)
+        okc = pc.returncode == 0 and "* Axioms: <none>" in (pc.stdout + pc.stderr)
+        rp.obligation("coqchk -o GV.Props.C10: accepted, no axioms, no assumed positivity/guardedness", okc, (pc.stdout + pc.stderr)[-300:])
+        if not okc:
+            rp.violation({"kind": "proof", "theorem": "coqchk GV.Props.C10", "log": (pc.stdout + pc.stderr)[-3000:]}, "coqchk_c10", no_input=True)
     nc = cpus()
     evals = 0
 
@@ -351,6 +358,17 @@ def run(tier):
             if w:
                 base["model_witness"] = w
         rp.violation(base, "shape_" + name, no_input=not found)
+    # ---- hypothesis of min_exact: recorded sizes are lengths
+    callers = static.get("metrics_callers") or []
+    neg = [c for c in callers if not c["nonneg"]]
+    rp.obligation("every library call site of metrics.RecordTokenization passes a length as the query size (%d sites): sizes are >= 0, never the -1 sentinel" % len(callers), not neg and bool(callers),
+                  json.dumps(neg)[:300])
+    rp.cov["record_tokenization_call_sites"] = callers
+    for c in neg[:2]:
+        rp.violation({"kind": "table-gap", "theorem": "C10_metrics_totals_exact (hypothesis 0 <= recorded size)", "call_site": c,
+                      "explanation": "RecordTokenization is called with a size that is not syntactically a length: a negative size (or the 'not set' sentinel -1) makes the smallest-query metric wrong"},
+                     "size_arg_" + re.sub(r"\W+", "_", c["pos"]), no_input=True)
+
     # ---- footprint table of package-level state
     bad_cells, known_cells = gen10.unprotected_pairs(gt)
     classes = {}
